@@ -194,7 +194,7 @@ def propagate_constants(expression, root=True):
     ):
         constant_mapping = {}
         for expr in walk_in_scope(expression, prune=lambda node: isinstance(node, exp.If)):
-            if isinstance(expr, exp.EQ):
+            if isinstance(expr, exp.EQ) and _is_conjunct_of(expr, expression):
                 l, r = expr.left, expr.right
 
                 # TODO: create a helper that can be used to detect nested literal expressions such
@@ -214,6 +214,16 @@ def propagate_constants(expression, root=True):
                     column.replace(constant.copy())
 
     return expression
+
+
+def _is_conjunct_of(node: exp.Expr, root: exp.Expr) -> bool:
+    """Whether every node between `node` and `root` is an AND or a parenthesis (so `node` must hold when `root` does)."""
+    parent = node.parent
+    while parent is not None and parent is not root:
+        if not isinstance(parent, (exp.And, exp.Paren)):
+            return False
+        parent = parent.parent
+    return True
 
 
 def _is_number(expression: exp.Expr) -> bool:
